@@ -1,4 +1,5 @@
 import Labella.Proofs.LayoutSep
+import Labella.Model.LayoutSpec
 /-! # C02 — labels are displaced as little as possible (least-squares optimal placement) -/
 namespace Labella.C02
 open Labella Labella.Chain Labella.Layout
@@ -25,6 +26,10 @@ theorem solve_room_not_moved (eps : ℚ) (heps : 0 ≤ eps) (vars : List Item) (
     (hroom : SepBy 0 gaps (vars.map (·.t))) :
     solve eps vars gaps = vars.map (·.t) :=
   solve_room_not_moved' eps heps vars gaps hlen hw hroom
+
+/-- the soft walls that stand for the bounds are at least as stiff as the reference the implementation oracle uses -/
+theorem wall_weight_large : refWallWeight ≤ Gen.wallWeight := by
+  unfold refWallWeight Gen.wallWeight; norm_num
 
 /-- pooling keeps the invariant "non-empty, positive weights, every prefix residual sum ≤ 0" -/
 theorem pooling_keeps_invariant {eps : ℚ} (heps : 0 ≤ eps) (fuel : ℕ) {bs : List Block} (hwf : WF bs) :
